@@ -240,6 +240,32 @@ def signature_of0(ops, r):
     return None
 
 
+def thread_key_histories(chk, cfg):
+    """real threads racing the first use of fresh thread-local keys (1600 keys, 4 threads each), and threads started while
+    every native key is taken: the tracked allocator must be back at its base line after every key / round (the sequences of
+    the resource harness are sequential: a block lost only when a publication race is lost cannot show there).
+    Harness of C05 (harness/uthread_stress.c, modes `keys` and `nokeys`); a failing run is the replay."""
+    import os
+    try:
+        exe = pv.build_harness("uthread_stress", cfg, ["uthread_stress.c"], repo_files=None, san="tsan", cc="clang-14",
+                               extra=["-include", os.path.join(pv.HARNESS, "uthread_clang_atomics.h")])
+    except pv.BuildError as e:
+        chk.violation(str(e), "thread-key stress harness does not build against the current source", no_input=True, suffix="txt")
+        return False
+    found = False
+    for mode in ("keys", "nokeys"):
+        rc, so, se = pv.run_proc([exe, str(chk.seed), mode], "", timeout=180,
+                                 env={"TSAN_OPTIONS": "halt_on_error=1:exitcode=66:report_signal_unsafe=0:suppressions=" + os.path.join(pv.HARNESS, "uthread_tsan.supp")})
+        chk.count("uthread_stress " + mode)
+        chk.bump("thread-key history:" + mode)
+        if rc != 0:
+            last = (se.strip().splitlines() or ["?"])[-1][:300]
+            chk.violation("uthread_stress %d %s   (harness/uthread_stress.c, clang-14 -fsanitize=thread)\n%s" % (chk.seed, mode, se[-2000:]),
+                          "C20 thread-local keys under real threads (%s): %s" % (mode, "ThreadSanitizer report" if rc == 66 else last), suffix="txt")
+            found = True
+    return found
+
+
 def run(chk):
     cfg = pv.repo_config()
     proof_ok, driver_ok, detail = pv.proof_stage(chk, ["PV.Props.C20"])
@@ -257,6 +283,8 @@ def run(chk):
         lengths = [30, 80, 200, 400] if thorough else [20, 60, 120]
         cases += [gen_case(rng, rng.choice(lengths), chk) for _ in range(nrand)]
         found, corr, thm = diffrun.campaign(chk, fam, cases, proof_ok, detail, signature_of, "C20", batch=12, reset="begin")
+        if not found:
+            found = thread_key_histories(chk, cfg) or found
         diffrun.conclude(chk, found, corr, thm, proof_ok and driver_ok, detail, "C20 resource neutrality")
     finally:
         resfam.drop_scratch(scratch)
